@@ -16,6 +16,13 @@ identical order, periodicity and knot vector (1e-12) on [0,1]; directions not re
 bases; each object evaluates at the rescaled parameters `(u - a)/(b - a)` to the map of its ORIGINAL
 spec (exact Cox-de Boor rows / exact NURBS points of the original), padded coordinates zero;
 invalid directions raise ValueError.
+
+Streams outside the main one (all tagged): `rounded-periodic-input` — periodic knot vectors whose ghost
+knots repeat the period only up to floating-point rounding (the exact model cannot follow sub-ulp
+inconsistencies of its INPUT, so `compare` is skipped and the oracle alone decides); `near-knots` —
+knots closer than a few knot tolerances (identity of the knot vectors is then demanded up to the knot
+tolerance 1e-10); `defect-stream` — input classes in which the called methods are known to fail
+(labels of C04/C05/C08 re-used by `classify`).
 """
 from fractions import Fraction as F
 import itertools
@@ -34,8 +41,11 @@ RULE = ('pairs of continuous objects of equal parametric dimension 1-3: orders 2
         'interior knots drawn from a shared pool so that after reparam knots coincide with different multiplicities 1..p-1 or '
         'are absent in one object, different affine placements of the domains (power-of-two and non-dyadic scalings), '
         'periodicities -1..p-2 (periodic bases with n >= p+k+1 functions), rational / non-rational, physical dimensions 1-3; '
-        'direction None / each int / each spelling / invalid; make_splines_compatible alone; a small stream of the known '
-        'defect classes of the called methods (small periodic bases, order-1 directions, 1-D curves).  '
+        'direction None / each int / each spelling / invalid; make_splines_compatible alone; small separate streams: '
+        'periodic bases placed by a non-dyadic affine map (ghost knots periodic only up to rounding; model comparison '
+        'skipped, oracle only), knots of the two objects 2^-35..2^-31 apart around knot_tolerance (incl. two knots of '
+        'one object inside the tolerance window of one knot of the other), and the known defect classes of the called '
+        'methods (periodic bases with n < p+k functions, order-1 directions, 1-D curves).  '
         'non-trivial = the call is legal (valid direction).')
 REQUIRED_TAGS = ['kind=identical', 'kind=compatible', 'pardim=1', 'pardim=2', 'pardim=3', 'dir=None', 'dir=int', 'dir=str',
                  'dir=invalid', 'orders-differ', 'orders-equal', 'periodicity-differs', 'both-periodic', 'open-only',
